@@ -1,9 +1,7 @@
 // ---------------------------------------------------------------------------------------------
 // BlockIter (src/tables/block.rs): cursor over the eagerly deserialised entries of a block.
 // ---------------------------------------------------------------------------------------------
-//@include specs/common/dbio_error.vs
-//@enum src/tables/errors.rs :: ReadError keep: FailedToParse BlockDecompression IO FilterBlock KeyNotFound derive: Debug
-//@type src/tables/errors.rs :: TableReadResult
+//@include specs/common/read_error.vs
 //@struct src/tables/block.rs :: BlockEntry keep: key value
 //@struct src/tables/block.rs :: BlockIter
 
@@ -46,7 +44,7 @@ pub proof fn lemma_sorted_upper<K: RainDbKeyType>(es: Seq<BlockEntry<K>>, target
 //@endfn
 //@fn seek props: C04 C13 C01
 //@sig
-    ensures r is Ok,
+    ensures r is Ok, final(self).block_entries == old(self).block_entries,
 //@body-start
         let ghost es = (*self.block_entries)@;
 //@loop 1
@@ -65,15 +63,21 @@ pub proof fn lemma_sorted_upper<K: RainDbKeyType>(es: Seq<BlockEntry<K>>, target
 //@endfn
 //@fn seek_to_first props: C04 C13
 //@sig
+    ensures final(self).block_entries == old(self).block_entries,
 //@endfn
 //@fn seek_to_last props: C04 C13
 //@sig
+    ensures final(self).block_entries == old(self).block_entries,
 //@endfn
 //@fn next props: C04 C13
 //@sig
+    ensures final(self).block_entries == old(self).block_entries,
+        final(self).current_index <= (*final(self).block_entries)@.len(), // [invalid-position-is-len]
 //@endfn
 //@fn prev props: C04 C13
 //@sig
+    ensures final(self).block_entries == old(self).block_entries,
+        final(self).current_index <= (*final(self).block_entries)@.len(), // [invalid-position-is-len]
 //@endfn
 //@fn current props: C04 C13
 //@sig
